@@ -120,13 +120,13 @@ def parseFitField (arch : Endian) (fd : FieldDef) (k : SlotKind) (tmp : Bytes) :
   if b = Base.byte ∨ b = Base.enum ∨ b = Base.uint8 ∨ b = Base.uint8z then
     if tmp.isEmpty then .panic else wrapU (setUint k first)
   else if b = Base.sint8 then
-    if tmp.isEmpty then .panic else wrapU (setInt k first)
+    if tmp.isEmpty then .panic else wrapU (setInt k (toSigned 8 first))
   else if b = Base.sint16 then
-    if tmp.length < 2 then .panic else wrapU (setInt k (arch.dec (tmp.take 2)))
+    if tmp.length < 2 then .panic else wrapU (setInt k (toSigned 16 (arch.dec (tmp.take 2))))
   else if b = Base.uint16 ∨ b = Base.uint16z then
     if tmp.length < 2 then .panic else wrapU (setUint k (arch.dec (tmp.take 2)))
   else if b = Base.sint32 then
-    if tmp.length < 4 then .panic else wrapU (setInt k (arch.dec (tmp.take 4)))
+    if tmp.length < 4 then .panic else wrapU (setInt k (toSigned 32 (arch.dec (tmp.take 4))))
   else if b = Base.uint32 ∨ b = Base.uint32z then
     if tmp.length < 4 then .panic else wrapU (setUint k (arch.dec (tmp.take 4)))
   else if b = Base.float32 then
@@ -187,29 +187,25 @@ def parseTimeStamp (st : DecSt) (pf : PField) (u32 : Nat) : Option Val × DecSt 
     (some (.t u32 0 0), st)
   else
     if st.timestamp = 0 ∨ st.timestamp < systemTimeMarker then
-      (some (.t u32 0 1), { st with timestamp := u32 })
+      (some (.t u32 0 1), st)            -- no reference: zero offset; the reference is not touched
     else
       (some (.t st.timestamp ((u32 : Int) - (st.timestamp : Int)) 1), st)
 
 /-! ### data records -/
 
-/-- widen the `dsize` bytes read into `tmp` to the profile size, as the padding loops of
-    `parseDataFields` do.  `none` = slice index out of range (negative index). -/
-def padTmp (arch : Endian) (raw : Bytes) (dsize psize : Nat) : Option Bytes :=
-  if psize = dsize then some raw
-  else if dsize < psize then
+/-- Widen the `dsize` bytes read into `tmp` to the profile size `psize` in the definition's
+    byte order (time and coordinate fields read 4 bytes whatever the definition says):
+    zero-extended, or sign-extended when the definition's base type is a signed integer. -/
+def padTmp (arch : Endian) (btype : Nat) (raw : Bytes) (dsize psize : Nat) : Bytes :=
+  if dsize < psize ∧ 0 < dsize then
+    let msb := match arch with
+      | .le => (raw.getLastD 0).toNat
+      | .be => (raw.headD 0).toNat
+    let fill : UInt8 := if Base.signed btype ∧ Base.integer btype ∧ msb ≥ 128 then 0xFF else 0
     match arch with
-    | .le => some (raw ++ List.replicate (psize - dsize) 0)
-    | .be =>
-      -- for j := 0; j < psize; j++ { tmp[j], tmp[j+padding] = 0, tmp[j] }
-      let padding := psize - dsize
-      let init := raw ++ List.replicate psize 0      -- tmp[0 : psize+padding) with stale bytes read as 0
-      let res := (List.range psize).foldl (fun t j => setAt (setAt t (j + padding) (t.getD j 0)) j 0) init
-      some res
-  else
-    match arch with
-    | .le => some raw
-    | .be => if psize = 0 then some raw else none     -- tmp[j+padding] with negative padding, j = 0
+    | .le => raw ++ List.replicate (psize - dsize) fill
+    | .be => List.replicate (psize - dsize) fill ++ raw
+  else raw
 
 inductive FieldsRes
   | ok (m : Option Msg) (st : DecSt)
@@ -222,11 +218,13 @@ def applyField (P : Profile) (dm : DefMsg) (known : Bool) (fd : FieldDef) (raw :
   | none => .ok m st
   | some pf =>
     let pb := tcBase pf.tcode
-    let padded :=
-      if pb ≠ Base.string ∧ !tcArray pf.tcode then padTmp dm.arch raw fd.size (Base.size pb) else some raw
-    match padded with
-    | none => .fail (panicOut st)
-    | some tmp =>
+    -- native fields are decoded by the definition's own type from tmp[:dsize]; only time and
+    -- coordinate fields are widened to the profile size
+    let tmp :=
+      if pb ≠ Base.string ∧ !tcArray pf.tcode ∧ tcKind pf.tcode ≠ .native then
+        padTmp dm.arch fd.btype raw fd.size (Base.size pb)
+      else raw
+    (
       if !known then .ok m st
       else match m, P.msg? dm.global with
         | some msg, some pm =>
@@ -264,21 +262,22 @@ def applyField (P : Profile) (dm : DefMsg) (known : Bool) (fd : FieldDef) (raw :
               else if k ≠ .lng then .fail (panicOut st)
               else store (some (.lng (toSigned 32 (dm.arch.dec (tmp.take 4))))) st
             | .unknown _ => .fail (panicOut st)        -- "unreachable: unknown kind"
-        | _, _ => .fail (panicOut st)                  -- known message without a struct value
+        | _, _ => .fail (panicOut st))                 -- known message without a struct value
 
 /-- the field loop of `parseDataFields` -/
-def parseFields (P : Profile) (opts : Opts) (dm : DefMsg) (known : Bool) :
+def parseFields (P : Profile) (dm : DefMsg) (known : Bool) :
     List FieldDef → Option Msg → DecSt → (Option Msg → DecSt → DProg) → DProg
   | [], m, st, cont => cont m st
   | fd :: fds, m, st, cont =>
     let st :=
-      if (P.getField dm.global fd.num).isNone ∧ opts.unkFields ∧ known then
+      -- counted unconditionally; `finalize` publishes the counts only when the option is set
+      if (P.getField dm.global fd.num).isNone ∧ known then
         { st with unkF := bump (dm.global, fd.num) st.unkF }
       else st
     rd st fd.size fun raw st =>
       match applyField P dm known fd raw m st with
       | .fail o => .done o
-      | .ok m st => parseFields P opts dm known fds m st cont
+      | .ok m st => parseFields P dm known fds m st cont
 
 /-- developer fields are read and dropped -/
 def skipDev : List DevDesc → DecSt → (DecSt → DProg) → DProg
@@ -286,7 +285,7 @@ def skipDev : List DevDesc → DecSt → (DecSt → DProg) → DProg
   | d :: ds, st, cont => rd st d.size fun _ st => skipDev ds st cont
 
 /-- `parseDataMessage` + `parseDataFields` -/
-def parseData (P : Profile) (opts : Opts) (hb : Nat) (compressed : Bool) (st : DecSt)
+def parseData (P : Profile) (hb : Nat) (compressed : Bool) (st : DecSt)
     (cont : Option Msg → DecSt → DProg) : DProg :=
   let localT := if compressed then (hb / 32) % 4 else hb % 16
   match st.defs.getD localT none with
@@ -299,9 +298,9 @@ def parseData (P : Profile) (opts : Opts) (hb : Nat) (compressed : Bool) (st : D
     if known ∧ ctor.isNone then .done (panicOut st)       -- getMesgAllInvalid: nil / out of range
     else
       let m : Option Msg := if known then ctor else none
-      let st := if !known ∧ opts.unkMsgs then { st with unkM := bump dm.global st.unkM } else st
+      let st := if !known then { st with unkM := bump dm.global st.unkM } else st
       let body (m : Option Msg) (st : DecSt) : DProg :=
-        parseFields P opts dm known dm.fields m st fun m st =>
+        parseFields P dm known dm.fields m st fun m st =>
           skipDev dm.dev st fun st => cont m st
       if !compressed ∨ st.timestamp = 0 then body m st
       else
@@ -346,7 +345,7 @@ def parseDefinition (P : Profile) (hb : Nat) (st : DecSt) (cont : DefMsg → Dec
         if global = mesgNumInvalid then .done (fail st .format)
         else rd st 1 fun nf st =>
           let nfields := (nf.headD 0).toNat
-          if nfields = 0 then cont ⟨localT, arch, global, [], []⟩ st
+          if nfields = 0 ∧ !hasBit hb devDataMask then cont ⟨localT, arch, global, [], []⟩ st
           else rd st (3 * nfields) fun fb st =>
             let fds := parseFieldDefs fb nfields
             if !(fds.all (validateFieldDef P global)) then .done (fail st .other)
@@ -370,7 +369,7 @@ def addMsg (P : Profile) (m : Option Msg) (st : DecSt) : Option DecSt :=
       | some (f', g') => some { st with file := some f', glob := g' }
 
 /-- `decodeFileData` -/
-def decodeFileData (P : Profile) (opts : Opts) (limit : Nat) :
+def decodeFileData (P : Profile) (limit : Nat) :
     (fuel : Nat) → DecSt → (DecSt → DProg) → DProg
   | 0, st, cont => cont st
   | fuel + 1, st, cont =>
@@ -378,22 +377,22 @@ def decodeFileData (P : Profile) (opts : Opts) (limit : Nat) :
       rd st 1 fun hbs st =>
         let hb := (hbs.headD 0).toNat
         if hasBit hb compressedHeaderMask then
-          parseData P opts hb true st fun m st =>
+          parseData P hb true st fun m st =>
             match addMsg P m st with
             | none => .done (panicOut st)
-            | some st => decodeFileData P opts limit fuel st cont
+            | some st => decodeFileData P limit fuel st cont
         else if hasBit hb mesgDefinitionMask then
           parseDefinition P hb st fun dm st =>
-            decodeFileData P opts limit fuel { st with defs := setAt st.defs dm.localT (some dm) } cont
+            decodeFileData P limit fuel { st with defs := setAt st.defs dm.localT (some dm) } cont
         else
-          parseData P opts hb false st fun m st =>
+          parseData P hb false st fun m st =>
             match addMsg P m st with
             | none => .done (panicOut st)
-            | some st => decodeFileData P opts limit fuel st cont
+            | some st => decodeFileData P limit fuel st cont
     else cont st
 
 /-- `parseFileIdMsg` -/
-def parseFileIdMsg (P : Profile) (opts : Opts) (st : DecSt) (cont : DecSt → DProg) : DProg :=
+def parseFileIdMsg (P : Profile) (st : DecSt) (cont : DecSt → DProg) : DProg :=
   rd st 1 fun hbs st =>
     let hb := (hbs.headD 0).toNat
     if !hasBit hb mesgDefinitionMask then .done (fail st .other)
@@ -403,7 +402,7 @@ def parseFileIdMsg (P : Profile) (opts : Opts) (st : DecSt) (cont : DecSt → DP
         let st := { st with defs := setAt st.defs dm.localT (some dm) }
         rd st 1 fun hbs2 st =>
           let hb2 := (hbs2.headD 0).toNat
-          parseData P opts hb2 false st fun m st =>
+          parseData P hb2 false st fun m st =>
             match m with
             | none => .done (panicOut st)                 -- msg.Interface() on the zero Value
             | some msg =>
@@ -424,7 +423,9 @@ def checkCRC (st : DecSt) : DProg :=
 /-- `decodeHeader` -/
 def decodeHeader (st : DecSt) (cont : DecSt → DProg) : DProg :=
   .readDirect 1
-    (fun _ stop => fail st (match stop with | .eof => .ioerr | .fault => .fault))
+    (fun _ stop => match stop with
+      | .eof => fail { st with cleanEOF := true } .ioerr     -- errReadSize: no byte of a header
+      | .fault => fail st .fault)
     (fun sb =>
       let size := (sb.headD 0).toNat
       let st := { st with hdr := { st.hdr with size := size } }
@@ -459,7 +460,7 @@ def zeroFileId (P : Profile) : Msg :=
   | none => ⟨mnFileId, []⟩
 
 /-- `(*decoder).decode` -/
-def decodeProg (P : Profile) (opts : Opts) (mode : Mode) (g : Globals) : DProg :=
+def decodeProg (P : Profile) (mode : Mode) (g : Globals) : DProg :=
   decodeHeader (DecSt.init g) fun st =>
     let st := { st with file := some { hdr := st.hdr, fileId := zeroFileId P } }
     .setLimit st.hdr.dataSize <|
@@ -471,7 +472,7 @@ def decodeProg (P : Profile) (opts : Opts) (mode : Mode) (g : Globals) : DProg :
         (fun bs => checkCRC { st with crc := Crc.update st.crc bs })
     | _ =>
       let st := { st with unkInit := true }
-      parseFileIdMsg P opts st fun st =>
+      parseFileIdMsg P st fun st =>
         if mode = .fileIdOnly then .done (okOut st)
         else match st.file with
           | none => .done (panicOut st)
@@ -480,7 +481,7 @@ def decodeProg (P : Profile) (opts : Opts) (mode : Mode) (g : Globals) : DProg :
             | .error c => .done (fail st c)
             | .ok f' =>
               let st := { st with file := some f' }
-              decodeFileData P opts st.hdr.dataSize (st.hdr.dataSize + 1) st fun st =>
+              decodeFileData P st.hdr.dataSize (st.hdr.dataSize + 1) st fun st =>
                 if st.n ≠ st.hdr.dataSize then .done (panicOut st)   -- pre-CRC invariant check
                 else checkCRC st
 
@@ -508,13 +509,13 @@ def BufSt.ofReader (r : Reader) : BufSt := { r := r, pending := [], n := 0, limi
 
 /-- one call of `d.decode(r, …)` on a fresh decoder -/
 def decode (P : Profile) (opts : Opts) (mode : Mode) (g : Globals) (r : Reader) : Outcome × Reader :=
-  let (o, b) := runBuffered (decodeProg P opts mode g) (BufSt.ofReader r)
+  let (o, b) := runBuffered (decodeProg P mode g) (BufSt.ofReader r)
   (finalize opts o, b.r)
 
 /-- the same call under the specification interpreter -/
 def decodeSpec (P : Profile) (opts : Opts) (mode : Mode) (g : Globals) (data : Bytes) (stop : Stop) :
     Outcome × SpecSt :=
-  let (o, s) := runSpec (decodeProg P opts mode g) { rest := data, stop := stop, n := 0, limit := 0, taken := 0 }
+  let (o, s) := runSpec (decodeProg P mode g) { rest := data, stop := stop, n := 0, limit := 0, taken := 0 }
   (finalize opts o, s)
 
 structure ChainRes where
@@ -532,7 +533,7 @@ def decodeChained (P : Profile) (opts : Opts) : (fuel : Nat) → Nat → List Fi
     if o.panic then ⟨acc, none, true, o.st.glob, r'⟩
     else match o.err with
       | some c =>
-        if o.st.hdr.size = 0 ∧ i ≠ 0 then ⟨acc, none, false, o.st.glob, r'⟩
+        if o.st.cleanEOF ∧ i ≠ 0 then ⟨acc, none, false, o.st.glob, r'⟩   -- clean end on a file boundary
         else
           let acc := match o.st.file with
             | some f => acc ++ [f]
